@@ -1,6 +1,6 @@
 (* Properties_C10.v — property C10: nearest-neighbour structures answer like exhaustive search.  Statements only. *)
 From Coq Require Import List ZArith Bool Arith Permutation Sorted.
-From OmplV Require Import NNModel NNProofs GnatModel GnatProofs.
+From OmplV Require Import NNModel NNProofs GnatModel GnatProofs GnatFullModel GnatFullProofs.
 Import ListNotations.
 Local Open Scope Z_scope.
 
@@ -123,6 +123,80 @@ Print Assumptions C10_gnat_nearestK_exact.
 Print Assumptions C10_gnat_live_elements.
 Print Assumptions C10_gnat_nearest1_flag_meaning.
 
+(* ---- the whole GNAT structure (GnatFullModel.v: add with range / radius updates, split with greedy k-centres, bulk
+   add, rebuild, removal cache, clear — the model whose tree equals the library's node by node after every operation
+   of the generated histories): for EVERY history of operations, every stream of random numbers feeding the k-centre
+   choice, and every parameter set with degree, minDegree, maxDegree >= 1, the structure satisfies the invariant the
+   search theorems above take as their hypothesis, never keeps a pivot in the removal cache, holds exactly the elements
+   it should, and therefore answers every query like exhaustive search over its contents ---- *)
+Section C10full.
+  Variable P : Type.
+  Variable d : P -> P -> Z.
+  Variable peqb : P -> P -> bool.
+  Hypothesis d_sym : forall x y, d x y = d y x.
+  Hypothesis d_refl : forall x, d x x = 0.
+  Hypothesis d_nonneg : forall x y, 0 <= d x y.
+  Hypothesis d_tri : forall x y z, d x z <= d x y + d y z.
+  Hypothesis peqb_spec : forall x y, peqb x y = true <-> x = y.
+  Variable par : params.
+  Hypothesis Hmin : (1 <= p_minDeg par)%nat.
+  Hypothesis Hmax : (1 <= p_maxDeg par)%nat.
+  Hypothesis Hdeg : (1 <= p_degree par)%nat.
+  Notation GI := (GI P d peqb).
+  Notation contents := (contents P peqb).
+  Notation gstep := (gstep P d peqb par).
+  Notation isrem := (isrem P peqb).
+
+  Theorem C10_gnat_invariant_after_every_history : forall ops tape,
+    GI (fst (fold_left gstep ops (gf_empty P par, tape))).
+  Proof. exact (history_inv P d peqb d_sym d_refl d_nonneg par Hmin Hmax Hdeg peqb_spec). Qed.
+  (* what the invariant is: the boolean search invariant on the tree, and live elements = contents *)
+  Theorem C10_gnat_invariant_is_the_search_invariant : forall g t, GI g -> g_tree P g = Some t ->
+    inv_ok_root P d (to_g P t) = true /\ lelems P (isrem (g_removed P g)) (to_g P t) = contents g.
+  Proof. exact (GI_search P d peqb). Qed.
+  (* contents: each operation changes them as the abstract multiset says *)
+  Theorem C10_gnat_add_contents : forall g x tape g' tp, GI g -> gf_add P d peqb par g x tape = (g', tp) ->
+    GI g' /\ (isrem (g_removed P g) x = false -> Permutation (contents g') (x :: contents g)) /\
+    (g_removed P g' = g_removed P g \/ g_removed P g' = []).
+  Proof. exact (add_spec P d peqb d_sym d_refl d_nonneg par Hmin Hmax Hdeg). Qed.
+  Theorem C10_gnat_add_list_contents : forall l g tape g' tp, GI g -> gf_add_list P d peqb par g l tape = (g', tp) ->
+    GI g' /\ ((forall x, In x l -> isrem (g_removed P g) x = false) -> Permutation (contents g') (l ++ contents g)).
+  Proof. exact (add_list_spec P d peqb d_sym d_refl d_nonneg par Hmin Hmax Hdeg). Qed.
+  Theorem C10_gnat_remove_contents : forall g x tape b g' tp, GI g -> gf_remove P d peqb par g x tape = (b, g', tp) ->
+    GI g' /\ (b = false -> g' = g) /\
+    (b = true -> Permutation (contents g') (filter (fun y => negb (peqb y x)) (contents g))).
+  Proof. exact (remove_spec P d peqb d_sym d_refl d_nonneg par Hmin Hmax Hdeg peqb_spec). Qed.
+  Theorem C10_gnat_rebuild_contents : forall g tape g' tp, gf_rebuild P d peqb par g tape = (g', tp) ->
+    (g_tree P g = None -> g_removed P g = []) ->
+    GI g' /\ Permutation (contents g') (contents g) /\ g_removed P g' = [].
+  Proof. exact (rebuild_spec P d peqb d_sym d_refl d_nonneg par Hmin Hmax Hdeg). Qed.
+  (* queries after any history *)
+  Theorem C10_gnat_nearestK_exact_after_every_history : forall ops tape t offs pick k q, (1 <= k)%nat ->
+    let g := fst (fold_left gstep ops (gf_empty P par, tape)) in
+    g_tree P g = Some t ->
+    exists nbh piv, gnat_nearestK P d peqb (isrem (g_removed P g)) offs pick k q (to_g P t) = Some (nbh, piv) /\
+      StronglySorted (nle P) nbh /\ dists_ok P d q nbh /\ length nbh = Nat.min k (length (contents g)) /\
+      exists rest, Permutation (contents g) (map snd nbh ++ rest) /\
+                   forall x y, In x (map snd nbh) -> In y rest -> d q x <= d q y.
+  Proof. exact (history_nearestK P d peqb d_sym d_refl d_nonneg par Hmin Hmax Hdeg peqb_spec d_tri). Qed.
+  Theorem C10_gnat_nearestR_exact_after_every_history : forall ops tape t offs pick r q,
+    let g := fst (fold_left gstep ops (gf_empty P par, tape)) in
+    g_tree P g = Some t ->
+    exists nbh piv, gnat_nearestR P d (isrem (g_removed P g)) offs pick r q (to_g P t) = Some (nbh, piv) /\
+      Permutation (map snd nbh) (filter (fun x => d q x <=? r) (contents g)) /\
+      StronglySorted (nle P) nbh /\ dists_ok P d q nbh.
+  Proof. exact (history_nearestR P d peqb d_sym d_refl d_nonneg par Hmin Hmax Hdeg peqb_spec d_tri). Qed.
+End C10full.
+
+Print Assumptions C10_gnat_invariant_after_every_history.
+Print Assumptions C10_gnat_invariant_is_the_search_invariant.
+Print Assumptions C10_gnat_add_contents.
+Print Assumptions C10_gnat_add_list_contents.
+Print Assumptions C10_gnat_remove_contents.
+Print Assumptions C10_gnat_rebuild_contents.
+Print Assumptions C10_gnat_nearestK_exact_after_every_history.
+Print Assumptions C10_gnat_nearestR_exact_after_every_history.
+
 (* non-vacuity: L1 metric on Z^2 *)
 Definition l1 (a b : Z * Z) : Z := Z.abs (fst a - fst b) + Z.abs (snd a - snd b).
 Example C10_nonvacuous :
@@ -147,4 +221,22 @@ Example C10_gnat_search_nonvacuous :
      = Some [(1, (4,4)); (3, (5,5)); (3, (2,2)); (3, (5,5))]
   /\ option_map fst (gnat_nearestR _ l1 (fun _ => false) (fun n => (2 * n)%nat) (fun _ => 0%nat) 3 (4,3) tree)
      = Some [(1, (4,4)); (3, (5,5)); (3, (2,2)); (3, (3,1)); (3, (5,5))].
+Proof. vm_compute. repeat split; reflexivity. Qed.
+
+(* non-vacuity for the structure theorems: a history with splits, a removal kept in the cache, a pivot removal
+   (rebuild) on the L1 plane; degree 2, minDegree 2, maxDegree 3, 2 elements per leaf, cache of 3 *)
+Definition par0 : params := mkPar 2 2 3 2 3 false.
+Definition hist0 : list (gop (Z * Z)) :=
+  [GAdd _ (0,0); GAdd _ (5,5); GAdd _ (1,0); GAdd _ (2,2); GAdd _ (9,9); GAdd _ (3,1); GAdd _ (7,2); GAdd _ (4,8);
+   GRemove _ (2,2); GAddList _ [(6,6); (8,1)]; GRemove _ (0,0)].
+Definition tape0 : list (Z * Z) := [(1, 3); (2, 3); (0, 1); (1, 2); (1, 4)].
+Example C10_gnat_structure_nonvacuous :
+  let g1 := fst (fold_left (gstep _ l1 peq2 par0) (firstn 10 hist0) (gf_empty _ par0, tape0)) in
+  let g := fst (fold_left (gstep _ l1 peq2 par0) hist0 (gf_empty _ par0, tape0)) in
+  (* after the first ten operations: a tree with two subtrees, (2,2) in the removal cache *)
+  option_map (fun t => length (f_children _ t)) (g_tree _ g1) = Some 2%nat /\ g_removed _ g1 = [(2,2)] /\
+  contents _ peq2 g1 = [(0, 0); (1, 0); (3, 1); (5, 5); (4, 8); (9, 9); (6, 6); (7, 2); (8, 1)] /\
+  (* removing the root pivot (0,0) rebuilds: cache empty, the element gone *)
+  option_map (fun t => length (f_children _ t)) (g_tree _ g) = Some 2%nat /\ g_removed _ g = [] /\
+  contents _ peq2 g = [(1, 0); (3, 1); (7, 2); (8, 1); (5, 5); (9, 9); (4, 8); (6, 6)].
 Proof. vm_compute. repeat split; reflexivity. Qed.
